@@ -103,14 +103,28 @@ def drive2(pid, tier, seed, only, res, spec, rnd, prog, kinds, lmax, scripts, kn
         return        # setup.sh: only fill the per-MIR-hash exploration / validation caches
     results = []
     # ---- modular obligations (run in this process)
-    if spec.get('modular'):
+    mods = spec.get('modular')
+    if tier == 'thorough' and spec.get('modular_thorough'):
+        mods = spec['modular_thorough']
+    if isinstance(mods, str):
+        mods = [mods]
+    for mod in (mods or []):
         t0 = time.time()
-        if tier == 'thorough' and spec.get('modular_thorough'):
-            spec = dict(spec, modular=spec['modular_thorough'])
-        na, nb, recs = getattr(props_v1, spec['modular'])(prog, max(list(lmax.values()) + [spec['lmax'][tier]]))
+        lm = max(list(lmax.values()) + [spec['lmax'][tier]])
+        ret = getattr(props_v1, mod)(prog, lm)
+        na, nb, recs = ret[0], ret[1], ret[2]
+        meta = ret[3] if len(ret) > 3 else props_v1.MODULAR_META.get(mod, {})
         results += recs
-        print('[M] %s: %d x %d stubbed-callee paths, %d queries in %.0fs' % (spec['modular'], na, nb, len(recs), time.time() - t0), flush=True)
-        res['bounds'].append('%s: window logic, from_utf8, map_err, FromStr glue executed with parse_header / try_from(&str) as an uninterpreted function of its argument slice; every valid-UTF-8 text of at most LMAX=%d bytes' % (spec['modular'], max(list(lmax.values()) + [spec['lmax'][tier]])))
+        print('[M] %s: %d + %d paths, %d queries in %.0fs' % (mod, na, nb, len(recs), time.time() - t0), flush=True)
+        for b in meta.get('bounds', []):
+            res['bounds'].append(b.replace('{LMAX}', str(lm)))
+        for f in meta.get('functions', []):
+            if f not in res['functions']:
+                res['functions'].append(f)
+        for m_ in meta.get('models', []):
+            if m_ not in res['models']:
+                res['models'] = list(res['models']) + [m_]
+        res['validated'] = res.get('validated', 0) + meta.get('validated', 0)
         res['distinct'] += na + nb
 
     # ---- obligations
